@@ -57,9 +57,10 @@ type c11Step struct {
 }
 
 type c11Case struct {
-	Mode  string    `json:"mode"` // twin | routes
-	NVals int       `json:"nvals"`
-	Steps []c11Step `json:"steps"`
+	Mode  string       `json:"mode"` // twin | routes
+	NVals int          `json:"nvals"`
+	Multi c11MultiSpec `json:"multi"` // what the multicall contract does between its reads (routes mode)
+	Steps []c11Step    `json:"steps"`
 }
 
 var c11Prices = []string{"1", "10000000000", "1000000000000"}
@@ -97,11 +98,18 @@ func c11World(cs c11Case) chain.World {
 	w.Contracts = append(w.Contracts,
 		chain.GenContract{Addr: c11Fwd("call").Hex(), Code: forwarderCodeOp(stakingCpcAddr(), false), Nonce: 1, Balance: "1000000000000000000000"},
 		chain.GenContract{Addr: c11Fwd("delegatecall").Hex(), Code: forwarderCodeOp(stakingCpcAddr(), true), Nonce: 1, Balance: "1000000000000000000000"})
+	if cs.Multi.Op != "" {
+		w.Contracts = append(w.Contracts, chain.GenContract{Addr: c11Multi().Hex(), Code: c11MultiCode(cs.Multi), Nonce: 1, Balance: "1000000000000000000000"})
+	}
 	return w
 }
 
 func genC11(t *rapid.T) c11Case {
 	cs := c11Case{Mode: rapid.SampledFrom([]string{"twin", "twin", "routes"}).Draw(t, "mode"), NVals: rapid.IntRange(3, 4).Draw(t, "nvals")}
+	if cs.Mode == "routes" {
+		cs.Multi = c11MultiSpec{Op: rapid.SampledFrom([]string{"delegate", "delegate", "undelegate", "redelegate", "withdraw", "none"}).Draw(t, "multiop"), Val: rapid.IntRange(0, cs.NVals-1).Draw(t, "multival"),
+			Val2: rapid.IntRange(0, cs.NVals-1).Draw(t, "multival2"), Amt: rapid.SampledFrom([]string{"1000000000000000000", "3000000000000000000", "500000000000000000"}).Draw(t, "multiamt")}
+	}
 	amts := []string{"1", "1000000000", "1000000000000000000", "3000000000000000000", "25000000000000000000", "all", "all", "over", "0", "2000000000000000000000000"}
 	kinds := []string{"delegate", "delegate", "delegate", "undelegate", "undelegate", "redelegate", "redelegate", "withdraw", "withdraw", "withdrawall", "withdrawall", "transfer", "msg", "msg", "msgwithdraw", "native", "empty", "empty"}
 	// (sender, validator) pairs delegated earlier in the sequence: later undelegate / redelegate / withdraw steps are
@@ -152,7 +160,11 @@ func genC11(t *rapid.T) c11Case {
 			}
 			delegated = append(delegated, pair{s.Sender, s.Val})
 		}
-		if cs.Mode == "routes" && s.Kind != "native" && s.Kind != "empty" {
+		if cs.Mode == "routes" && rapid.IntRange(0, 2).Draw(t, "multicall") == 0 {
+			// the multicall contract runs its reads and its state-changing call in one execution
+			s.Kind, s.Route, s.Forge = "multicall", "", ""
+		}
+		if cs.Mode == "routes" && s.Kind != "native" && s.Kind != "empty" && s.Kind != "multicall" {
 			s.Route = rapid.SampledFrom([]string{"", "call", "call", "delegatecall", "delegatecall"}).Draw(t, "route")
 		}
 		cs.Steps = append(cs.Steps, s)
@@ -171,6 +183,40 @@ type c11Snap struct {
 	Bal     map[common.Address]*big.Int
 	Rewards map[common.Address]map[string]sdkmath.Int // delegator -> validator (bech32) -> truncated outstanding reward
 	Vals    map[string]*big.Int                       // bonded validators: operator -> tokens
+	Total   map[common.Address]*big.Int               // delegator -> truncated total outstanding reward (native querier)
+}
+
+const c11NUsers = 7 // four EOAs, the two forwarders, the multicall contract
+
+// c11Multi is a contract that, within one execution, reads rewardsOf(self), performs one state-changing staking call,
+// then reads rewardsOf / balanceOf / delegationOf again and logs every answer (LOG0, 32 bytes each).
+func c11Multi() common.Address { return common.HexToAddress(poolAddr(0x72)) }
+
+type c11MultiSpec struct {
+	Op   string `json:"op"` // delegate | undelegate | redelegate | withdraw | none
+	Val  int    `json:"val"`
+	Val2 int    `json:"val2"`
+	Amt  string `json:"amt"`
+}
+
+func c11MultiCode(m c11MultiSpec) string {
+	st := stakingCpcAddr().Hex()
+	self := c11Multi()
+	amt, _ := new(big.Int).SetString(m.Amt, 10)
+	view := func(data string) evmgen.Stmt { return evmgen.Stmt{Op: "callret", A: st, B: "0", N: 32, Data: data} }
+	p := evmgen.Program{view(packStaking("rewardsOf", self))}
+	switch m.Op {
+	case "delegate":
+		p = append(p, evmgen.Stmt{Op: "call", A: st, B: "0", Data: packStaking("delegate", c11ValEth(m.Val), amt)})
+	case "undelegate":
+		p = append(p, evmgen.Stmt{Op: "call", A: st, B: "0", Data: packStaking("undelegate", c11ValEth(m.Val), amt)})
+	case "redelegate":
+		p = append(p, evmgen.Stmt{Op: "call", A: st, B: "0", Data: packStaking("redelegate", c11ValEth(m.Val), c11ValEth(m.Val2), amt)})
+	case "withdraw":
+		p = append(p, evmgen.Stmt{Op: "call", A: st, B: "0", Data: packStaking("withdrawReward", c11ValEth(m.Val))})
+	}
+	p = append(p, view(packStaking("rewardsOf", self)), view(packStaking("balanceOf", self)), view(packStaking("delegationOf", self, c11ValEth(m.Val))))
+	return evmgen.CompileHex(p)
 }
 
 var c11Tracked = func() []common.Address {
@@ -178,7 +224,7 @@ var c11Tracked = func() []common.Address {
 	for i := 0; i < 4; i++ {
 		out = append(out, chain.K(i).Addr)
 	}
-	out = append(out, c11Fwd("call"), c11Fwd("delegatecall"))
+	out = append(out, c11Fwd("call"), c11Fwd("delegatecall"), c11Multi())
 	for _, m := range []string{stakingtypes.BondedPoolName, stakingtypes.NotBondedPoolName, distrtypes.ModuleName} {
 		out = append(out, common.BytesToAddress(authtypes.NewModuleAddress(m)))
 	}
@@ -187,7 +233,7 @@ var c11Tracked = func() []common.Address {
 
 func c11Take(c *chain.Chain) func(ctx sdk.Context) interface{} {
 	return func(ctx sdk.Context) interface{} {
-		s := &c11Snap{Dels: map[string]string{}, Ubds: map[string]string{}, Reds: map[string]string{}, Starts: map[string]string{}, Bal: map[common.Address]*big.Int{}, Rewards: map[common.Address]map[string]sdkmath.Int{}, Vals: map[string]*big.Int{}}
+		s := &c11Snap{Dels: map[string]string{}, Ubds: map[string]string{}, Reds: map[string]string{}, Starts: map[string]string{}, Bal: map[common.Address]*big.Int{}, Rewards: map[common.Address]map[string]sdkmath.Int{}, Vals: map[string]*big.Int{}, Total: map[common.Address]*big.Int{}}
 		_ = c.App.StakingKeeper.IterateLastValidators(ctx, func(_ int64, v stakingtypes.ValidatorI) bool {
 			if v.IsBonded() {
 				s.Vals[v.GetOperator()] = v.GetTokens().BigInt()
@@ -216,7 +262,7 @@ func c11Take(c *chain.Chain) func(ctx sdk.Context) interface{} {
 		// outstanding rewards: the querier writes, so it runs on a throw-away branch
 		qctx, _ := ctx.CacheContext()
 		q := distrkeeper.NewQuerier(c.App.DistrKeeper)
-		for _, a := range c11Tracked[:6] {
+		for _, a := range c11Tracked[:c11NUsers] {
 			res, err := q.DelegationTotalRewards(qctx, &distrtypes.QueryDelegationTotalRewardsRequest{DelegatorAddress: sdk.AccAddress(a.Bytes()).String()})
 			if err != nil {
 				continue
@@ -226,9 +272,19 @@ func c11Take(c *chain.Chain) func(ctx sdk.Context) interface{} {
 				m[r.ValidatorAddress] = r.Reward.AmountOf(chain.Denom).TruncateInt()
 			}
 			s.Rewards[a] = m
+			s.Total[a] = res.Total.AmountOf(chain.Denom).TruncateInt().BigInt()
 		}
 		return s
 	}
+}
+
+// c11TotalRewards returns the native total outstanding reward of the multicall contract before / after the tx.
+func c11TotalRewards(_ *chain.Chain, tr *txRecord, before bool) *big.Int {
+	s := tr.Post.(*c11Snap)
+	if before {
+		s = tr.Pre.(*c11Snap)
+	}
+	return s.Total[c11Multi()]
 }
 
 func c11ValAddr(i int) sdk.ValAddress { return chain.ValOperKey(i).Val() }
@@ -288,7 +344,10 @@ func c11Logs(rec *txRecord) []string {
 		"0xad71f93891cecc86a28a627d5495c28fabbd31cdd2e93851b16ce3421fdab2e5": "WithdrawReward",
 	}
 	for _, l := range rec.Receipt.Receipt.Logs {
-		if l.Address != stakingCpcAddr() || len(l.Topics) != 3 {
+		if l.Address != stakingCpcAddr() {
+			continue // logs of the calling contracts themselves
+		}
+		if len(l.Topics) != 3 {
 			out = append(out, fmt.Sprintf("?%s/%x", l.Address.Hex(), l.Topics))
 			continue
 		}
@@ -377,6 +436,9 @@ func runC11(cs c11Case) *Outcome {
 		if st.Route != "" {
 			caller = c11Fwd(st.Route)
 		}
+		if st.Kind == "multicall" {
+			caller = c11Multi()
+		}
 
 		if st.Kind == "empty" {
 			if _, err := a.RunBlock(chain.Block{Dt: st.Dt}); err != nil {
@@ -450,6 +512,8 @@ func runC11(cs c11Case) *Outcome {
 			data, mirror = packStaking("withdrawRewards"), "withdrawall"
 		case "transfer":
 			data, mirror = packStaking("transfer", caller, amount), "transfer"
+		case "multicall":
+			data = ""
 		case "msg", "msgwithdraw":
 			// the message names a delegator; valid only if delegator == immediate caller == recovered signer (this chain id)
 			msgDelegator := sender.Addr
@@ -506,6 +570,9 @@ func runC11(cs c11Case) *Outcome {
 			to := stakingCpcAddr()
 			if st.Route != "" {
 				to = c11Fwd(st.Route)
+			}
+			if st.Kind == "multicall" {
+				to = c11Multi()
 			}
 			txA, _, err = chain.EthTx{From: st.Sender, Type: 0, Nonce: seq, Gas: c11Gas, GasPrice: price.String(), To: to.Hex(), Data: data}.Build(a.TxCfg)
 		}
@@ -564,7 +631,7 @@ func runC11(cs c11Case) *Outcome {
 				}
 			}
 		}
-		for _, addr := range c11Tracked[:6] {
+		for _, addr := range c11Tracked[:c11NUsers] {
 			if addr == caller || addr == sender.Addr {
 				continue
 			}
@@ -597,7 +664,7 @@ func runC11(cs c11Case) *Outcome {
 			if changed || len(logs) > 0 {
 				o.dev("", "step %d (%+v): signed message not authorised by the immediate caller took effect (logs %v)", si, st, logs)
 			}
-			for _, addr := range c11Tracked[6:] {
+			for _, addr := range c11Tracked[c11NUsers:] {
 				if pre.Bal[addr].Cmp(post.Bal[addr]) != 0 {
 					o.dev("", "step %d (%+v): pool balance %s moved by an unauthorised signed message", si, st, addr.Hex())
 				}
@@ -608,6 +675,43 @@ func runC11(cs c11Case) *Outcome {
 		for _, l := range logs {
 			if !strings.Contains(l, "("+addrHex(caller)+",") {
 				o.dev("", "step %d (%+v): log %s does not name the immediate caller %s", si, st, l, addrHex(caller))
+			}
+		}
+
+		// ---- (e') views inside one execution: what the contract read after its own state-changing call equals the native
+		// numbers of the state right after the tx; what it read first equals those of the state right before
+		if st.Kind == "multicall" && tr.Receipt != nil && tr.Receipt.Receipt != nil && !tr.Receipt.HasVMError {
+			var reads []*big.Int
+			for _, l := range tr.Receipt.Receipt.Logs {
+				if l.Address == c11Multi() && len(l.Topics) == 0 && len(l.Data) == 32 {
+					reads = append(reads, new(big.Int).SetBytes(l.Data))
+				}
+			}
+			total := func(s *c11Snap) *big.Int {
+				sum := new(big.Int)
+				for _, v := range s.Rewards[c11Multi()] {
+					sum.Add(sum, v.BigInt())
+				}
+				return sum
+			}
+			if len(reads) == 4 {
+				o.label("multicall-reads-compared")
+				special = true
+				// note: per-validator truncation: the native total truncates the sum, rewardsOf truncates the sum as well;
+				// compare against the native querier's total on the same states
+				preTot, postTot := c11TotalRewards(a, tr, true), c11TotalRewards(a, tr, false)
+				_ = total
+				if preTot != nil && reads[0].Cmp(preTot) != 0 {
+					o.dev("", "step %d (%+v): first rewardsOf inside the execution = %s, native query before the tx %s", si, st, reads[0], preTot)
+				}
+				if postTot != nil && reads[1].Cmp(postTot) != 0 {
+					o.dev("", "step %d (%+v): rewardsOf read after the contract's own %s = %s, native query on the resulting state %s", si, st, cs.Multi.Op, reads[1], postTot)
+				}
+				if postTot != nil {
+					if want := new(big.Int).Add(post.Bal[c11Multi()], postTot); reads[2].Cmp(want) != 0 {
+						o.dev("", "step %d (%+v): balanceOf read after the contract's own %s = %s, balance + native rewards %s", si, st, cs.Multi.Op, reads[2], want)
+					}
+				}
 			}
 		}
 
@@ -682,7 +786,7 @@ func runC11(cs c11Case) *Outcome {
 					return o
 				}
 			}
-			for _, addr := range c11Tracked[6:] {
+			for _, addr := range c11Tracked[c11NUsers:] {
 				x := a.App.BankKeeper.GetBalance(a.CommittedCtx(), addr.Bytes(), chain.Denom)
 				y := b.App.BankKeeper.GetBalance(b.CommittedCtx(), addr.Bytes(), chain.Denom)
 				if !x.Equal(y) {
@@ -755,7 +859,7 @@ func c11DistrView(c *chain.Chain, nvals int) view {
 	v := view{}
 	ctx, _ := c.CommittedCtx().CacheContext()
 	q := distrkeeper.NewQuerier(c.App.DistrKeeper)
-	for _, a := range c11Tracked[:6] {
+	for _, a := range c11Tracked[:c11NUsers] {
 		res, err := q.DelegationTotalRewards(ctx, &distrtypes.QueryDelegationTotalRewardsRequest{DelegatorAddress: sdk.AccAddress(a.Bytes()).String()})
 		if err != nil {
 			v["rewards/"+a.Hex()] = "error: " + err.Error()
